@@ -26,6 +26,12 @@ if rnd % 2 == 1:
         "a defect in STATE THAT LIVES ACROSS CALLS: a cache, a pool, a lazily initialised value, a package-level table or registry, an object that callers are allowed to reuse, a default that is read at one time and used at another",
         "a defect in a detail of TEXT or NUMBER REPRESENTATION: bytes versus characters versus UTF-16 units, case folding, a particular escape sequence, a numeric format (exponent, sign, leading zero, precision), a separator that may also occur inside a value",
     ]
+if rnd % 3 == 0:
+    AIMS = [
+        "a defect in a LIMIT, GUARD or SPECIAL CASE that the code already has (a depth or size limit, a nil or empty check, a recover, a cap, a sort that makes output deterministic, a clamp): off by one, applied at the wrong level, reset at the wrong time, skipped on one path",
+        "a defect that only shows through an ENTRY POINT or OPTION that is rarely used (a second constructor, a convenience wrapper, a non-default formatter or option value, loading from files instead of strings, a kept object used twice)",
+        "a defect in the ORDER in which things happen or are visited: evaluation order of operands or arguments, order of passes, order of items in a collection, first-versus-last wins, the order in which two goroutines or two calls get to shared state",
+    ]
 os.makedirs("/tmp/wt", exist_ok=True)
 for line in open(os.path.join(root, "properties.jsonl")):
     p = json.loads(line)
